@@ -1,7 +1,8 @@
 #!/bin/sh
-# Builds the symbolic engine from /verif/engine (module cache only, offline).
+# Builds the symbolic engine from ./engine next to this script (module cache only, offline).
 set -e
-cd /verif/engine
+ROOT=$(cd "$(dirname "$0")" && pwd)
+cd "$ROOT/engine"
 export PATH=/opt/veriftools/go1.26.8/bin:$PATH GOFLAGS=-mod=mod GOPROXY=off GOSUMDB=off GOTOOLCHAIN=local
-mkdir -p /verif/bin
-go build -o /verif/bin/gosym ./cmd/gosym
+mkdir -p "$ROOT/bin"
+go build -o "$ROOT/bin/gosym" ./cmd/gosym
